@@ -217,7 +217,7 @@ class Built:
         if nd["cb"]:
             kw["callback"] = self.fn("callback", nd["cb"], i)
         if nd["effs"]:
-            kw["effects"] = [self.fn("effect", e, i) for e in nd["effs"]]
+            kw["effects"] = [self._effect(e, i) for e in nd["effs"]]
         if nd.get("cache") == "none":
             kw["cache"] = __import__("labrea.cache", fromlist=["NoCache"]).NoCache()
         if nd["dflt"]:
@@ -243,6 +243,17 @@ class Built:
         if nd.get("effoff"):
             ds.disable_effects()
         return ds
+
+    def _effect(self, name, owner):
+        """A constant callable effect, or ("ep") an effect step whose parameter is Option('EP')."""
+        if name != "ep":
+            return self.fn("effect", name, owner)
+        log = self.log
+
+        def ep(value, p=self.lab.Option("EP")):
+            log.append(("effect", "ep", (value, p), owner))
+
+        return self.lab.pipeline_step(ep)
 
     def register(self, tab, entry):
         owner = self.obj[self.tabowner[tab]]
